@@ -512,6 +512,11 @@ class Evaluator:
                 return len(args[0])
             if fn.id == "abs" and args and isinstance(args[0], (int, float)):
                 return abs(args[0])
+            if fn.id in ("max", "min") and len(args) >= 2 and all(type(a) in (int, float) for a in args) and not kws:
+                return max(args) if fn.id == "max" else min(args)
+            if fn.id in ("max", "min") and len(args) == 1 and isinstance(args[0], (list, tuple)) and args[0] \
+                    and all(type(a) in (int, float) for a in args[0]) and not kws:
+                return max(args[0]) if fn.id == "max" else min(args[0])
             if fn.id == "sum" and args and isinstance(args[0], (list, tuple)) and all(isinstance(x, (int, bool)) for x in args[0]):
                 return sum(args[0])
             if fn.id in ("any", "all") and args and isinstance(args[0], (list, tuple)):
@@ -581,6 +586,27 @@ class Evaluator:
                             acc = self.binop(ast.Add(), acc, sep, e)
                         acc = self.binop(ast.Add(), acc, x, e)
                     return acc
+            if recv_name in env and type(env[recv_name]) is dict and not any(isinstance(k, str) and k.endswith("()") for k in env[recv_name]) \
+                    and fn.attr in ("get", "keys", "values", "items", "pop", "setdefault") \
+                    and all(not isinstance(a, (Opaque, Sym)) for a in args):
+                d = env[recv_name]
+                try:
+                    if fn.attr == "get" and 1 <= len(args) <= 2:
+                        return d.get(*args)
+                    if fn.attr == "keys" and not args:
+                        return list(d.keys())
+                    if fn.attr == "values" and not args:
+                        return list(d.values())
+                    if fn.attr == "items" and not args:
+                        return [(k, v) for k, v in d.items()]
+                    if fn.attr == "pop" and 1 <= len(args) <= 2:
+                        return d.pop(*args)
+                    if fn.attr == "setdefault" and len(args) == 2:
+                        return d.setdefault(*args)
+                except KeyError:
+                    raise Raised("KeyError")
+                except TypeError:
+                    pass
             if recv_name in env and type(env[recv_name]) is set and fn.attr in ("add", "discard") and len(args) == 1:
                 (env[recv_name].add if fn.attr == "add" else env[recv_name].discard)(args[0])
                 if fn.attr in self.watch:
